@@ -24,7 +24,7 @@ ASSUMPTIONS = ['domain values are JSON-native and pairwise distinct under == (a 
 
 
 def plan(tier, seed):
-    return dict(n=600 if tier == 'quick' else 200000, budget_s=70 if tier == 'quick' else 840, case_timeout=120)
+    return dict(n=1500 if tier == 'quick' else 200000, budget_s=70 if tier == 'quick' else 840, case_timeout=120)
 
 
 def lkey(l):
